@@ -158,6 +158,10 @@ def run_property(prop_id, tier, root=None, out=sys.stdout):
             st["twins_silent"]), file=out)
         print("  self-test: whole-package benign rewrites silent=%d/%d %s" % (st["benign_rewrites_silent"], st["benign_rewrites_applied"],
               {k: v for k, v in st["benign_rewrites"].items() if v != "silent"} or ""), file=out)
+        print("  self-test: sub-agent refactorings silent=%d/%d; seeded changes of this property reported=%d/%d %s" % (
+            st.get("refactorings_silent", 0), st.get("refactorings_applied", 0), st.get("seeded_reported", 0), st.get("seeded_applied", 0),
+            (st.get("noisy_refactorings") or "") if st.get("noisy_refactorings") else ("missed: %s" % st["seeded_missed"] if st.get("seeded_missed") else "")),
+            file=out)
         pr = extra.get("path_replay", {})
         print("  path replay: %d functions, %d explicit paths, %d node visits, %d mismatches" % (
             pr.get("functions", 0), pr.get("paths", 0), pr.get("node_visits", 0), len(pr.get("mismatches", []))), file=out)
